@@ -293,6 +293,10 @@ impl std::io::Write for Limited {
         if self.data.len() + buf.len() > self.cap {
             let room = self.cap - self.data.len();
             if room == 0 {
+                // a full sink says so either with an error or -- like `&mut [u8]` -- by accepting 0 bytes
+                if self.cap % 2 == 0 {
+                    return Ok(0);
+                }
                 return Err(std::io::Error::new(std::io::ErrorKind::WriteZero, "sink is full"));
             }
             self.data.extend_from_slice(&buf[..room]);
